@@ -30,7 +30,7 @@ type H2Script struct {
 	Status   int
 	Interim  [][]Field // interim (1xx) header blocks written before the final one, each with its :status
 	Fields   []Field   // regular response fields (content-length included when declared)
-	HdrEnd   bool    // END_STREAM already on HEADERS
+	HdrEnd   bool      // END_STREAM already on HEADERS
 	Actions  []H2Action
 	Trailers []Field
 	Follow   []byte
